@@ -1060,6 +1060,10 @@ def sink(which):
                 n += 1
                 desc, atoms, auto = cl.classify(f, s)
                 key = "%s/%s/%s/%s" % (res.rule, p, s["kind"], key_of(desc)[:140])
+                if not auto and "(const:0)" in atoms:
+                    # behind a test of a constant that is false in this profile: `cfg!(debug_assertions)` in a release
+                    # build - the assertion is not compiled in
+                    auto = ("dead", "behind a constant-false test (a debug assertion in a profile without debug assertions)")
                 if auto:
                     classes[auto[0]] = classes.get(auto[0], 0) + 1
                     res.ok({"function": p, "sink": desc[:100], "class": auto[0], "why": auto[1]}, nontrivial=(auto[0] != "const/iter"))
